@@ -115,6 +115,12 @@ class C06Monitor(object):
             if hasattr(c, "capital"):
                 if abs(c.value) > costs + 1e-9 * scale and abs(ctx["cur"].get(cn, (0.0,))[0]) > 0:
                     sim.violation("c06_not_closed", "sub-strategy %s is not a target but still worth %r" % (cn, c.value), {})
+                elif abs(ctx["cur"].get(cn, (0.0,))[0]) > 0:
+                    # closed means closed all the way down: no open position anywhere below a dropped sub-strategy
+                    for g in c.members:
+                        if not hasattr(g, "capital") and abs(g.position) >= TOL:
+                            sim.violation("c06_not_closed", "sub-strategy %s is not a target and worth %r, but %s below it still holds %r" % (cn, c.value, g.full_name, g.position), {"below_sub": True})
+                            break
             elif abs(c.position) >= TOL and cn in ctx["cur"] and ctx["cur"][cn][0] != 0 and ctx["cur"][cn][0] == ctx["cur"][cn][0]:
                 sim.violation("c06_not_closed", "%s is not a target but still holds %r" % (cn, c.position), {})
         if costless and not integer:
